@@ -169,6 +169,24 @@ fn defs() -> Vec<Def> {
     for o in ["allexport", "noclobber", "noglob", "nounset", "pipefail", "errexit"] {
         v.push(Def { text: format!("set -o {o}"), kind: "option" });
     }
+    // every signal of the system except KILL and STOP, by number (the listing prints names,
+    // including RTMIN+n / RTMAX-n), in two halves so that pairs combine them with other state
+    {
+        use yash_env::system::Signals;
+        let sys = yash_env::system::r#virtual::VirtualSystem::new();
+        let nums: Vec<i32> = (1..=255)
+            .filter(|n| sys.validate_signal(*n).is_some_and(|(name, _)| !matches!(name.to_string().as_str(), "KILL" | "STOP")))
+            .collect();
+        assert!(nums.len() > 30, "signal table unexpectedly small: {nums:?}");
+        for (k, half) in nums.chunks(nums.len().div_ceil(2)).enumerate() {
+            let mut t = String::new();
+            for n in half {
+                t.push_str(&format!("trap 'p t{n}' {n}; "));
+            }
+            t.push_str(if k == 0 { "trap '' 3" } else { "trap '' 201 209" });
+            v.push(Def { text: t, kind: "trap" });
+        }
+    }
     v.push(Def { text: "trap '' INT".into(), kind: "trap" });
     v.push(Def { text: "trap - USR1".into(), kind: "trap" });
     for m in ["027", "077", "000", "u=rwx,g=rx,o="] {
